@@ -157,7 +157,7 @@ void RadioTap::dbm_noise(int8_t new_dbm_noise) {
 }
 
 void RadioTap::signal_quality(uint8_t new_signal_quality) {
-    add_integral_option(*this, LOCK_QUALITY, new_signal_quality);
+    add_integral_option(*this, LOCK_QUALITY, static_cast<uint16_t>(new_signal_quality));
 }
 
 void RadioTap::data_retries(uint8_t new_data_retries) {
@@ -277,7 +277,7 @@ int8_t RadioTap::dbm_noise() const {
 }
 
 uint16_t RadioTap::signal_quality() const {
-    return do_find_option(DBM_SIGNAL).to<uint16_t>();
+    return do_find_option(LOCK_QUALITY).to<uint16_t>();
 }
 
 uint8_t RadioTap::antenna() const {
